@@ -169,7 +169,7 @@ static void chains(vt::rng& g, int nchains, int len)
         int peak = (int) g.below(B);
         for (int k = 0; k != len; ++k)
         {
-            int fam = (int) g.below(6);
+            int fam = (int) g.below(7);
             std::vector<T> data(D * B, T());
             int sexp = (int) g.range(-100, 100);
             for (std::size_t i = 0; i != D * B; ++i)
@@ -180,7 +180,8 @@ static void chains(vt::rng& g, int nchains, int len)
                 else if (fam == 2) data[i] = T(g.range(0, 1000)) / T(8);                   // random
                 else if (fam == 3) data[i] = std::ldexp(T(g.range(1, 255)), (int) g.range(-20, 20) + sexp); // wide exponent range
                 else if (fam == 4) data[i] = std::ldexp(T(1 + g.below(7)), sexp);          // tiny / huge overall scale
-                else data[i] = std::exp(-T(0.5) * T((long) b - peak) * T((long) b - peak)); // sharp peak
+                else if (fam == 5) data[i] = T(1) / (T(1) + T(16) * T((long) b - peak) * T((long) b - peak)); // sharp peak (no underflow in the tails)
+                else data[i] = g.below(4) == 0 ? T() : std::numeric_limits<T>::max() / T(2 + (long) g.below(6));  // top of the exponent range
             }
             pdf = ref_step("chain", c, k, pdf, alpha, data);
             if (!finite_all(grid_of(pdf, 0))) break;
@@ -211,8 +212,10 @@ static void real_run(int run, vt::rng& g, int iters)
                 .i("wOk", std::fabs(p.weight() - T(B) * (r - l)) <= T(4) * std::numeric_limits<T>::epsilon() * p.weight() ? 1 : 0)
                 .i("w", vt::mono_scaled(p.weight(), 10)).emit();
         }
+        // sharply peaked, but without tails that underflow in T: a smoothed value that underflows to zero makes the
+        // damped importance jump from ~1/|ln r|^alpha to 0, which is a property of the number format, not of the code
         T d = (x - peak) / width;
-        return std::exp(-d * d);
+        return d * d > T(400) ? T() : T(1) / (T(1) + d * d);
     };
     auto integrand = hep::make_integrand<T>(fn, 1);
     auto chk = hep::make_vegas_chkpt<T>(B, alpha);
